@@ -44,7 +44,7 @@ ASSUMPTIONS = [
     'is not a metric and is excluded)',
     'the near-pi grid stops at pi - 1e-6 and pi itself (exactly symmetric and rounding-level asymmetric half-turns both occur)',
 ]
-REQUIRED_CLASSES = ['containers:matrix', 'containers:quaternion', 'pairs:group', 'pairs:conjugate', 'zero:same', 'zero:antipodal', 'angle:pi', 'angle:<1e-2',
+REQUIRED_CLASSES = ['stack-sizes', 'containers:matrix', 'containers:quaternion', 'pairs:group', 'pairs:conjugate', 'zero:same', 'zero:antipodal', 'angle:pi', 'angle:<1e-2',
                     'angle:near-pi', 'inv:left', 'inv:right', 'triangle:tight', 'triangle:strict', 'triangle:geodesic',
                     'entry:single', 'entry:N-row', 'cf:right', 'cf:left']
 
@@ -629,6 +629,59 @@ def job_containers(ctx, k):
     ctx.states += len(pairs) + len(qpairs)
 
 
+SIZES = [1, 2, 3, 4, 5, 7, 63, 64, 65, 127, 128, 129, 255, 256, 257, 258, 511, 512, 513, 1023, 1024, 1025]
+
+
+def job_sizes(ctx, k):
+    """N-row entry points for stacks of every small size and of sizes around the powers of two (where a blocked / chunked evaluation would
+    have its last partial block), with unit and non-unit rows in either argument: row j = the single call on pair j, for every j."""
+    from mc import alphabet as A
+    from mc.ref import quat as rq
+    M = _M()
+    G = A.Gl(A.G120(), k)
+    H = A.Gc(A.G120(), (k + 3) % 8)
+    def rows(n, S, shift):
+        return np.array([S[(shift + 7 * j) % len(S)] for j in range(n)])
+    scalings = [('unit', None, None), ('first scaled', np.array([3.0, 0.5, 7.0, 1.0, 0.25]), None), ('second scaled', None, np.array([0.5, 2.0, 1.0, 0.75, 4.0])),
+                ('both scaled', np.array([3.0, 0.5, 7.0, 1.0, 0.25]), np.array([0.5, 2.0, 1.0, 0.75, 4.0]))]
+    for n in SIZES:
+        Q1u, Q2u = rows(n, G, 0), rows(n, H, 3)
+        for sn, s1, s2 in scalings:
+            if sn != 'unit' and n > 129:
+                continue
+            Q1 = Q1u if s1 is None else Q1u * s1[np.arange(n) % 5][:, None]
+            Q2 = Q2u if s2 is None else Q2u * s2[np.arange(n) % 5][:, None]
+            for m in QM:
+                V = _call_n(ctx, m, Q1, Q2, lambda: f'N={n} rows={sn} k{k}')
+                fn = getattr(M, m)
+                # single calls on a spread of rows (all rows for small N; first, last, and the rows next to the block boundaries for large N)
+                idx = sorted(set(list(range(min(n, 6))) + [n - 1, n - 2, n // 2] + [j for j in (63, 64, 127, 128, 255, 256, 511, 512, 1023) if j < n]))
+                for j in idx:
+                    if j < 0:
+                        continue
+                    sgl = float(fn(Q1[j].copy(), Q2[j].copy()))
+                    ref = CF[m](2.0 * rq.qangle(rq.qunit(Q1u[j]), rq.qunit(Q2u[j]))) if m in CF else sgl
+                    ctx.evals += 1
+                    if not (abs(V[j] - sgl) <= 1e-8):
+                        ctx.fail(f'{m}[N-row]: row j = the single call on pair j (all stack sizes, unit and non-unit rows)', f'N={n} rows={sn} j={j} k{k}', V[j], sgl, 1e-8)
+            ctx.seen(('sizes', n, sn))
+        R1 = np.array([rq.R(q) for q in Q1u]); R2 = np.array([rq.R(q) for q in Q2u])
+        V = _call_n(ctx, 'chordal', R1, R2, lambda: f'N={n} k{k}')
+        for j in range(n):
+            ref = float(np.sqrt(((R1[j] - R2[j]) ** 2).sum()))
+            ctx.evals += 1
+            if not (abs(V[j] - ref) <= 1e-12):
+                ctx.fail('chordal[N-row]: row j = |R1_j - R2_j|_F (all stack sizes)', f'N={n} j={j} k{k}', V[j], ref, 1e-12)
+        V0 = _call_n(ctx, 'chordal', R1, R1, lambda: f'N={n} same k{k}')
+        ctx.evals += 1
+        if not np.all(V0 == 0.0):
+            ctx.fail('chordal[N-row]: coincident rotations are at distance exactly 0 (all stack sizes)', f'N={n} k{k}', float(np.nanmax(np.abs(V0))), 0.0, 0.0)
+        ctx.cls('stack-sizes')
+    ctx.transitions += len(SIZES) * 5
+    ctx.states += len(SIZES)
+    ctx.sample({'stack_sizes': SIZES, 'scalings': [s[0] for s in scalings]})
+
+
 def job_nrow_matrix_note(ctx):
     """Not judged: what identity_deviation / angular_distance do with (N,3,3) input (documented for one 3x3 pair)."""
     S = A.Gl(A.G48(), 0)
@@ -691,6 +744,7 @@ def run(ctx):
     jobs.append(('job_reuse', (A.seed_k(ctx.seed) if not ctx.thorough else 0,)))
     for kk in (ks if ctx.thorough else ks[:1]):
         jobs.append(('job_containers', (kk,)))
+        jobs.append(('job_sizes', (kk,)))
     core.run_jobs(ctx, __name__, jobs)
     ctx.notes['menu_entries'] = ks
     ctx.notes['angle_grid'] = [tstr(t) for t in tgrid(ctx.thorough)]
